@@ -226,4 +226,32 @@ Definition run_cmd (s : store) (c : cmd) : result unit * store :=
       with_cell v (fun c => (Ok tt, s ++ [{| cty := cty c; cback := cback c; chook := HNone |}]))
   end.
 
+(* ---- `view[a:b] = values` on lists and vectors (complex.py MonoSubtreeView.__setitem__, after fix D14): coerce every
+        value, check the count, check the bounds — and only then write element by element ---- *)
+Fixpoint slice_cmds (u : vid) (a : Z) (args : list arg) : list cmd :=
+  match args with [] => [] | x :: r => CSet u a x :: slice_cmds u (a + 1) r end.
+Fixpoint run_seq (s : store) (cs : list cmd) : result unit * store :=
+  match cs with
+  | [] => (Ok tt, s)
+  | c :: r => match run_cmd s c with (Ok _, s') => run_seq s' r | (Err e, s') => (Err e, s') end
+  end.
+Definition slice_set (s : store) (u : vid) (a b : Z) (args : list arg) : result unit * store :=
+  match nth_error s u with
+  | None => (Err EOther, s)
+  | Some c =>
+      match match cty c with TVector e _ | TList e _ => Some e | _ => None end with
+      | None => (Err EOther, s)
+      | Some e =>
+          match seq_res (map (coerce_arg e) args) with
+          | Err er => (Err er, s)
+          | Ok _ =>
+              if negb (a + Z.of_nat (length args) =? b)%Z then (Err EOther, s)
+              else match view_len H src (cty c) (cback c) with
+                   | Err er => (Err er, s)
+                   | Ok ll => if (a <? 0)%Z || (Z.of_N ll <? b)%Z then (Err EIndex, s) else run_seq s (slice_cmds u a args)
+                   end
+          end
+      end
+  end.
+
 End WithHash.
